@@ -27,8 +27,8 @@ type T1 struct {
 	Tags   []string
 }
 
-func (t T1) Hello() string  { return "hello" }
-func (t *T1) PtrM() string  { return "ptrm" }
+func (t T1) Hello() string         { return "hello" }
+func (t *T1) PtrM() string         { return "ptrm" }
 func (t T1) Twice(s string) string { return s + s }
 
 type T3 struct {
@@ -54,17 +54,17 @@ func (l *CallLog) add(id int, k int64) { l.entries = append(l.entries, fmt.Sprin
 
 func userFuncs(l *CallLog) map[string]any {
 	return map[string]any{
-		"one":    func() int64 { return 1 },
-		"ident":  func(a any) any { return a },
-		"fail":   func() (int64, error) { return 0, sentinels[1] },
-		"boom":   func() int64 { panic("boom") },
-		"add":    func(a, b int64) int64 { return a + b },
-		"cat":    func(xs ...string) string { return strings.Join(xs, "") },
-		"rec":    func(k int64) int64 { l.add(7, k); return k },
-		"recb":   func(k int64, b bool) bool { l.add(8, k); return b },
-		"recs":   func(k int64, s string) string { l.add(9, k); return s },
-		"two":    func() (int64, int64) { return 1, 2 },
-		"none":   func() {},
+		"one":   func() int64 { return 1 },
+		"ident": func(a any) any { return a },
+		"fail":  func() (int64, error) { return 0, sentinels[1] },
+		"boom":  func() int64 { panic("boom") },
+		"add":   func(a, b int64) int64 { return a + b },
+		"cat":   func(xs ...string) string { return strings.Join(xs, "") },
+		"rec":   func(k int64) int64 { l.add(7, k); return k },
+		"recb":  func(k int64, b bool) bool { l.add(8, k); return b },
+		"recs":  func(k int64, s string) string { l.add(9, k); return s },
+		"two":   func() (int64, int64) { return 1, 2 },
+		"none":  func() {},
 		"failIf": func(b bool) (string, error) {
 			if b {
 				return "", sentinels[2]
